@@ -141,9 +141,17 @@ class Driver:
         w = self.w
         for d in sorted(self.state.created_dirs, key=len):
             if w.ref.kind(d) == ABSENT and w.fs.kind(d) == DIR:
-                # anything else inside it shows up as a tree difference
-                if w.ref.kind(posixpath.dirname(d)) == DIR:
-                    w.ref.add_dir(d)
+                # anything else inside it shows up as a tree difference; a
+                # reappearing directory needs its ancestors, so those may
+                # reappear with it (they hold nothing else, or the tree differs)
+                todo = []
+                q = d
+                while w.ref.kind(q) == ABSENT and w.fs.kind(q) == DIR:
+                    todo.append(q)
+                    q = posixpath.dirname(q)
+                if w.ref.kind(q) == DIR:
+                    for q in reversed(todo):
+                        w.ref.add_dir(q)
 
     def check_same(self, prefix, sig=()):
         """C01 assertions for the last build step: same outcome, same value or
